@@ -744,21 +744,24 @@ class FunctionReferenceWithArguments:
         # Start with any partial kwargs
         result = dict(self.fn_reference.partial_kwargs)
 
-        # Fill in partial args
+        # Positional arguments - those of the partial application, then those of the call -
+        # fill, in order, the parameters that are not bound by a partial keyword argument:
+        # moving an argument of a call into a partial application does not change what it binds.
         parameter_names = self.fn_reference.parameter_names
         partial_args = self.fn_reference.partial_args
-        if len(parameter_names) < len(partial_args):
+        unbound_parameter_names = [
+            name for name in parameter_names if name not in result
+        ]
+        if len(unbound_parameter_names) < len(partial_args):
             raise ValueError(
                 f"More partial arguments provided ({len(partial_args)} "
                 f"than the arguments for the function ({parameter_names})"
             )
         for i in range(0, len(partial_args)):
-            result[parameter_names[i]] = partial_args[i]
+            result[unbound_parameter_names[i]] = partial_args[i]
 
         # Which parameter names are left after partial?
-        remaining_parameter_names = [
-            name for name in parameter_names if name not in result
-        ]
+        remaining_parameter_names = unbound_parameter_names[len(partial_args) :]
 
         # Now fill in args
         if len(remaining_parameter_names) < len(self.args):
@@ -769,7 +772,7 @@ class FunctionReferenceWithArguments:
             )
 
         for i in range(0, len(self.args)):
-            result[remaining_parameter_names[i]] = self.args[i]
+            result[unbound_parameter_names[len(partial_args) + i]] = self.args[i]
 
         # And remaining kwargs
         result.update(self.kwargs)
